@@ -2,6 +2,7 @@
 From Coq Require Import ZArith NArith PArith List Bool.
 From Cohdl Require Import Vhdl.Value Vhdl.Syntax Vhdl.Sem Vhdl.DefAssign Vhdl.DeadVars Equiv.Explore Equiv.VhdlTS Equiv.RefTS Equiv.Monitor Equiv.StoreTS Models.AxiSpec.
 Import ListNotations.
+Local Open Scope Z_scope.
 
 (** per (layout, phase): OK from the checker means the AXI monitor answers ok at every clock of every
     input sequence over the phase's alphabet *)
@@ -13,3 +14,117 @@ Theorem C20_case_sound :
       Forall (fun o => o = okout) (traceA (mstep_s d mid mon) (power_up_s d, m0) ins).
 Proof. exact mcheck_s_sound. Qed.
 Print Assumptions C20_case_sound.
+
+(** ** the reference data model the monitor compares the registers with *)
+
+(** a write to a plain word changes exactly the strobed bytes: bit i takes the written bit when strobe
+    bit i/8 is set and keeps its value otherwise ... *)
+Theorem C20_strobe_merge_exact :
+  forall old data strb i, 0 <= i < 32 ->
+    Z.testbit (strobe_merge old data strb) i = if Z.testbit strb (i / 8) then Z.testbit data i else Z.testbit old i.
+Proof. exact strobe_merge_bit. Qed.
+Print Assumptions C20_strobe_merge_exact.
+
+(** ... and nothing outside the 32 bits of the word *)
+Theorem C20_strobe_merge_nothing_else :
+  forall old data strb i, i < 0 \/ 32 <= i -> Z.testbit (strobe_merge old data strb) i = Z.testbit old i.
+Proof. exact strobe_merge_bit_out. Qed.
+Print Assumptions C20_strobe_merge_nothing_else.
+
+Example C20_strobe_merge_nonvacuous :
+  strobe_merge 287454020 2864434397 5 = 297481181 (* 0x11223344 <- 0xAABBCCDD, bytes 0 and 2 = 0x11BB33DD *)
+  /\ Z.testbit 5 (17 / 8) = true /\ Z.testbit 5 (9 / 8) = false /\ 0 <= 17 < 32.
+Proof. vm_compute. repeat split; discriminate. Qed.
+
+(** registers with fields: a bit changes only if its byte is strobed AND it is bus-writable *)
+Theorem C20_masked_write_exact :
+  forall old data strb wmask i, 0 <= i < 32 ->
+    Z.testbit (merge_masked old data strb wmask) i =
+    if Z.testbit strb (i / 8) && Z.testbit wmask i then Z.testbit data i else Z.testbit old i.
+Proof. exact merge_masked_bit. Qed.
+Print Assumptions C20_masked_write_exact.
+
+(** a bus write never changes a bit outside the register's write mask (hardware-driven / read-only fields) *)
+Theorem C20_readonly_bits_kept :
+  forall old data strb wmask i, Z.testbit wmask i = false ->
+    Z.testbit (merge_masked old data strb wmask) i = Z.testbit old i.
+Proof. exact merge_masked_readonly. Qed.
+Print Assumptions C20_readonly_bits_kept.
+
+Example C20_readonly_bits_nonvacuous :
+  Z.testbit 4095 16 = false /\ Z.testbit 4095 3 = true
+  /\ merge_masked 65596 4294967295 15 4095 = 69631 (* 0x1003C <- all ones under mask 0xFFF = 0x10FFF *).
+Proof. vm_compute. repeat split. Qed.
+
+(** decoding: a write to an address where no register is mapped leaves every register unchanged *)
+Theorem C20_unmapped_write_keeps :
+  forall offsets wmasks regs addr data strb,
+    (forall o, In o offsets -> addr / 4 <> o / 4) -> ref_write offsets wmasks regs addr data strb = regs.
+Proof. exact ref_write_unmapped. Qed.
+Print Assumptions C20_unmapped_write_keeps.
+
+Example C20_unmapped_write_nonvacuous :
+  (forall o, In o [8; 12] -> 4 / 4 <> o / 4) /\ ref_write [8; 12] [] [1; 2] 4 255 15 = [1; 2]
+  /\ ref_write [8; 12] [] [1; 2] 12 255 15 = [1; 255].
+Proof. split; [intros o [<-|[<-|[]]]; vm_compute; discriminate|split; reflexivity]. Qed.
+
+(** a write changes no register but the addressed one ... *)
+Theorem C20_write_other_registers_kept :
+  forall offsets wmasks regs addr data strb j,
+    reg_at offsets addr O <> Some j -> nth j (ref_write offsets wmasks regs addr data strb) 0 = nth j regs 0.
+Proof. exact ref_write_other. Qed.
+Print Assumptions C20_write_other_registers_kept.
+
+(** ... and the addressed one (the register whose word offset equals the word of the address) gets the masked merge *)
+Theorem C20_write_addressed_register :
+  forall offsets wmasks regs addr data strb k,
+    reg_at offsets addr O = Some k -> (k < length regs)%nat ->
+    nth k (ref_write offsets wmasks regs addr data strb) 0 = merge_masked (nth k regs 0) data strb (nth k wmasks all32).
+Proof. exact ref_write_addressed. Qed.
+Print Assumptions C20_write_addressed_register.
+
+Theorem C20_decode_sound :
+  forall offsets addr k, reg_at offsets addr O = Some k ->
+    (0 <= k)%nat /\ (k - 0 < length offsets)%nat /\ nth (k - 0) offsets 0 / 4 = addr / 4.
+Proof. intros offsets addr k. exact (reg_at_some offsets addr O k). Qed.
+Print Assumptions C20_decode_sound.
+
+Example C20_write_addressed_nonvacuous :
+  reg_at [0; 12] 12 O = Some 1%nat /\ reg_at [0; 12] 12 O <> Some 0%nat /\ (1 < length [7; 9])%nat
+  /\ ref_write [0; 12] [] [7; 9] 12 4294967295 1 = [7; 255].
+Proof. vm_compute. repeat split; try discriminate. apply le_n. Qed.
+
+(** a read returns the current value of the register mapped at the word of the address *)
+Theorem C20_read_addressed_register :
+  forall offsets regs addr v, ref_read offsets regs addr = Some v ->
+    exists k, (k < length offsets)%nat /\ nth k offsets 0 / 4 = addr / 4 /\ v = nth k regs 0.
+Proof. exact ref_read_mapped. Qed.
+Print Assumptions C20_read_addressed_register.
+
+Example C20_read_nonvacuous : ref_read [0; 12] [7; 9] 13 = Some 9 /\ ref_read [0; 12] [7; 9] 8 = None.
+Proof. split; reflexivity. Qed.
+
+(** the hardware model of the register with fields moves only the bits of its own fields (so any other bit
+    the monitor sees change was changed by the bus side) *)
+Theorem C20_hw_counter_only_its_field :
+  forall v shift width i, 0 <= shift -> 0 <= width -> i < shift \/ shift + width <= i ->
+    Z.testbit (cnt_tick v shift width) i = Z.testbit v i.
+Proof. exact cnt_tick_outside. Qed.
+Print Assumptions C20_hw_counter_only_its_field.
+
+Theorem C20_hw_toggle_only_its_bit :
+  forall v shift i, 0 <= shift -> i <> shift -> Z.testbit (tog_tick v shift) i = Z.testbit v i.
+Proof. exact tog_tick_other. Qed.
+Print Assumptions C20_hw_toggle_only_its_bit.
+
+Theorem C20_hw_other_registers_kept :
+  forall nf tw tr regs j,
+    match nf with Some s => j <> s.(n_reg) | None => True end -> nth j (hw_tick nf tw tr regs) 0 = nth j regs 0.
+Proof. exact hw_tick_other. Qed.
+Print Assumptions C20_hw_other_registers_kept.
+
+Example C20_hw_nonvacuous :
+  cnt_tick 196668 16 2 = 60 (* 0x3003C: counter 3 wraps to 0, the rest stays *) /\ cnt_tick 60 16 2 = 65596
+  /\ tog_tick 60 24 = 16777276 /\ tog_tick 16777276 24 = 60
+  /\ hw_tick (Some {| n_reg := 1; n_wshift := 16; n_wwidth := 2; n_rshift := 24 |}) true true [5; 60] = [5; 16842812].
+Proof. vm_compute. repeat split. Qed.
